@@ -13,3 +13,4 @@ import LyModel.Props.C11Range
 import LyModel.Props.C08
 import LyModel.Props.C05
 import LyModel.Props.C05JsonNum
+import LyModel.Props.C10
